@@ -89,6 +89,14 @@ void run(Ctx &ctx) {
     uint64_t idx = 0;
     std::vector<Str> shape = shape_list(sz == 2 ? 1 : 0), refs = resolve_refs(sz == 0 ? 1 : sz == 1 ? 2 : 3, sz == 2), bases = resolve_bases(true), norm = norm_corpus(sz == 2 ? 1 : 0);
     for (auto &s : shape) if (ctx.mine(idx++)) { d.tostring(s); for (auto &t : { "s://h/a", "s:/a", "S://H/a", "s://h/a?q" }) d.two(s, t, 2, 0); }
+    // near-identical URIs: components of equal length that differ only in their last character (a comparison that looks at
+    // bytes instead of characters, or at a prefix, tells them apart in one API and not in the other)
+    {
+        std::vector<Str> fam; const char *parts[][2] = { { "abcd", "abcx" }, { "user1", "user2" }, { "example.com", "example.org" }, { "8080", "8081" }, { "path1", "path2" }, { "file1", "file2" }, { "query1", "query2" }, { "frag1", "frag2" } };
+        for (int v = -1; v < 8; v++) { const char *c[8]; for (int i = 0; i < 8; i++) c[i] = parts[i][i == v ? 1 : 0]; fam.push_back(Str(c[0]) + "://" + c[1] + "@" + c[2] + ":" + c[3] + "/" + c[4] + "/" + c[5] + "?" + c[6] + "#" + c[7]); }
+        fam.push_back("abcd://[v1.abcd]/path1"); fam.push_back("abcd://[v1.abcx]/path1"); fam.push_back("abcd://[::ab:cd]/path1/file1"); fam.push_back("abcd://[::ab:ce]/path1/file1"); fam.push_back("abcd:path1/file1"); fam.push_back("abcd:path1/file2");
+        for (auto &x : fam) for (auto &y : fam) { if (!ctx.mine(idx++)) continue; d.two(x, y, 2, 0); d.two(x, y, 1, 0); d.two(x, y, 1, 1); d.two(x, y, 0, 1); d.two(x, y, 0, 0); }
+    }
     for (auto &r : refs) { if (ctx.expired()) break; if (!ctx.mine(idx++)) continue; for (size_t bi = 0; bi < bases.size(); bi += (sz == 2 ? 1 : 4)) { d.two(r, bases[bi], 0, 0); d.two(r, bases[bi], 0, 1); } }
     for (auto &s : shape) { if (ctx.expired()) break; if (!ctx.mine(idx++)) continue; for (auto &b : { "s://h/a/b?q", "s:/a/b", "s:a", "t://g", "a" }) { d.two(s, b, 1, 0); d.two(s, b, 1, 1); d.two(b, s, 1, 0); } }
     for (auto &s : norm) { if (ctx.expired()) break; if (!ctx.mine(idx++)) continue; for (unsigned m : { 63u, 8u, 4u, 1u, 2u, 48u, 0u }) for (int o = 0; o < 2; o++) d.normalize(s, m, o); }
